@@ -189,14 +189,30 @@ def consistency(rep):
     rep.ob("O11.4", "SRC", fi, not srt, srt[0] if srt else "no sort", "the list of matches is not re-sorted")
     ae = [c for c in walk_local(fi.node) if isinstance(c, ast.Call) and call_name(c) == "AutoEst"]
     if ae:
-        na, ea = kwarg(ae[0], "node_attrs"), kwarg(ae[0], "edge_attrs")
-        from ..core import const
-        try:
-            nav, eav = set(const(na)), set(const(ea))
-        except Exception:
-            nav, eav = set(), set()
-        rep.ob("O11.4", "SRC", fi, {"element", "charge"} <= nav and {"order"} <= eav, f"node_attrs={sorted(nav)} edge_attrs={sorted(eav)}",
-               "the estimate distinguishes at least the labels the matcher compares (element, charge / order): it cannot merge atoms the matcher tells apart")
+        from ..absval import Undecided, eval_expr, module_constants
+        consts = module_constants(fi.module.tree)
+        if fi.cls is not None:
+            for st in fi.cls.body:  # class-level constants
+                if isinstance(st, ast.Assign) and isinstance(st.targets[0], ast.Name):
+                    try:
+                        consts[st.targets[0].id] = eval_expr(st.value, {})
+                    except Undecided:
+                        pass
+        vals = {}
+        for kw in ("node_attrs", "edge_attrs"):
+            v = kwarg(ae[0], kw)
+            try:
+                env = dict(consts)
+                env.update({f"self.{k}": x for k, x in consts.items()})
+                env.update({f"SynReactor.{k}": x for k, x in consts.items()})
+                vals[kw] = set(eval_expr(origin(local_defs(fi.node), v), env)) if v is not None else set()
+            except (Undecided, TypeError):
+                vals[kw] = None
+        need_n, need_e = {"element", "charge", "aromatic", "hcount"}, {"order"}
+        ok = None if (vals["node_attrs"] is None or vals["edge_attrs"] is None) else (need_n <= vals["node_attrs"] and need_e <= vals["edge_attrs"])
+        rep.ob("O11.4", "SRC", fi, ok, f"node_attrs={sorted(vals['node_attrs']) if vals['node_attrs'] is not None else '?'} edge_attrs={sorted(vals['edge_attrs']) if vals['edge_attrs'] is not None else '?'}",
+               "the orbit estimate must tell apart every atom label the rule tells apart (element, charge, aromaticity, hydrogen count; bond order): "
+               "atoms merged into one orbit although the rule treats them differently make the pruning drop inequivalent matches", node=ae[0])
 
 
 def anchor_selection(rep, oid):
